@@ -104,6 +104,11 @@ fn le8(x: u64) -> Vec<u8> {
 
 /// independent v4 encoder: deltas of the sorted entries, each in `w` bits, most significant bit first
 pub fn ref_v4(entries: &[u64], theta: u64, sh: u16) -> Vec<u8> {
+    ref_v4_width(entries, theta, sh, None)
+}
+
+/// `force_w`: pack with this width instead of the minimal one (for near-valid corpus images, C14)
+pub fn ref_v4_width(entries: &[u64], theta: u64, sh: u16, force_w: Option<usize>) -> Vec<u8> {
     let est = theta < MAX_THETA;
     let mut deltas = vec![];
     let mut prev = 0u64;
@@ -113,7 +118,7 @@ pub fn ref_v4(entries: &[u64], theta: u64, sh: u16) -> Vec<u8> {
         ored |= e - prev;
         prev = e;
     }
-    let w = 64 - ored.leading_zeros() as usize;
+    let w = force_w.unwrap_or(64 - ored.leading_zeros() as usize);
     let n = entries.len();
     let nb = if n == 0 { 0 } else if n < 256 { 1 } else if n < 65536 { 2 } else if n < (1 << 24) { 3 } else { 4 };
     let mut b = vec![if est { 2 } else { 1 }, 4, 3, w as u8, nb as u8, 2 | 8 | 16];
@@ -454,6 +459,40 @@ fn around_theta_ops(rng: &mut Rng, lgk: u8, rf: u8, seed: u64) -> Vec<Op> {
     ops
 }
 
+/// through the PUBLIC update path: once theta has dropped, re-offer the very item whose hash is theta
+/// (it was offered and then discarded), the items just below it and duplicates of retained items
+fn public_boundary_ops(rng: &mut Rng, lgk: u8, rf: u8, seed: u64) -> Vec<Op> {
+    let k = 1u64 << lgk;
+    let items: Vec<u64> = (0..(3 * k)).map(|_| rng.next()).collect();
+    let mut ops: Vec<Op> = vec![];
+    let mut sk = ThetaSketch::builder().lg_k(lgk).resize_factor(rf_of(rf)).seed(seed).build();
+    let mut last_theta = MAX_THETA;
+    for (i, &x) in items.iter().enumerate() {
+        sk.update(x);
+        ops.push(Op::Item(x));
+        if sk.theta64() != last_theta || (i % 50 == 49 && sk.theta64() < MAX_THETA) {
+            last_theta = sk.theta64();
+            // the item whose hash equals theta, and a retained one
+            if let Some(&it) = items[..=i].iter().find(|&&y| theta_hash_u64(y, seed) == last_theta) {
+                ops.push(Op::Item(it));
+                sk.update(it);
+                ops.push(Op::Compact(true));
+            }
+            if let Some(&it) = items[..=i].iter().find(|&&y| theta_hash_u64(y, seed) < last_theta) {
+                ops.push(Op::Item(it));
+                sk.update(it);
+            }
+        }
+        if i as u64 == 2 * k {
+            ops.push(Op::Trim);
+            sk.trim();
+            last_theta = MAX_THETA; // force the boundary probe after the trim
+        }
+    }
+    ops.push(Op::Compact(false));
+    ops
+}
+
 /// sampling sketch whose updates are all screened out, then compact / bounds (C01, C04)
 fn screened_ops(rng: &mut Rng, p: f32) -> Vec<Op> {
     let th0 = th0_of(p);
@@ -523,6 +562,11 @@ pub fn record(args: &Args) {
                 let ops = around_theta_ops(&mut rng, lgk, rf, 9001);
                 run(&mut out, "theta-around-theta", lgk, rf, 1.0, 9001, &ops);
             }
+        }
+        for &lgk in &[5u8, 6, 8] {
+            let rf = rng.below(4) as u8;
+            let ops = public_boundary_ops(&mut rng, lgk, rf, 9001);
+            run(&mut out, "theta-public-boundary", lgk, rf, 1.0, 9001, &ops);
         }
         for &p in &[0.5f32, 0.01, 0.9] {
             let ops = screened_ops(&mut rng, p);
